@@ -77,11 +77,24 @@ class RuleCtx:
             raise AnchorLost(f"{what}: {n} site(s), hand-counted floor is {floor}")
 
     # -- P1 ---------------------------------------------------------------------
-    def confine(self, rule, what, actual, allowed, strip_closures=True, where=''):
+    def confine(self, rule, what, actual, allowed, strip_closures=True, where='', through_helpers=False):
         """actual ⊆ allowed (sets of function def-paths)."""
         if strip_closures:
             actual = {self.facts.owner_fn(a) for a in actual}
-        extra = sorted(set(actual) - set(allowed))
+        # an allow-list entry ending in `::*` admits every (non-test) method of that type / module: a private helper of the owner is the owner
+        pref = tuple(a[:-1] for a in allowed if a.endswith('::*'))
+        extra = sorted(a for a in set(actual) - set(allowed) if not (pref and a.startswith(pref) and '::tests::' not in a))
+        # a helper that cannot be called from outside the crate and is itself only called from the allow-list does not widen it
+        def via_allowed(fn, depth=3, seen=()):
+            it = self.facts.fnitems.get(fn)
+            if depth == 0 or fn in seen or it is None or (it.get('vis') == 'pub' and it.get('reach')):
+                return False
+            cs = {self.facts.owner_fn(c) for c in self.facts.callers_of(fn)} - {fn}
+            return bool(cs) and all(c in allowed or (pref and c.startswith(pref)) or via_allowed(c, depth - 1, seen + (fn,)) for c in cs)
+        helpers = [e for e in extra if through_helpers and via_allowed(e)]
+        if helpers:
+            self.note(f"{what}: {helpers} are crate-private helpers called only from the allow-list")
+        extra = [e for e in extra if e not in helpers]
         if extra:
             for e in extra:
                 b = self.facts.bodies.get(e)
@@ -96,7 +109,7 @@ class RuleCtx:
         if callee not in self.facts.bodies and callee not in self.facts.fnitems:
             raise AnchorLost(f"{callee} not found")
         self.floor(f"callers of {callee}", len(cs), min_callers)
-        self.confine(rule, f"callers of {callee}", cs, allowed)
+        self.confine(rule, f"callers of {callee}", cs, allowed, through_helpers=True)
 
     def constructors_confined(self, rule, adt, allowed, min_sites=1):
         cs = self.facts.constructors.get(adt, set())
@@ -108,6 +121,47 @@ class RuleCtx:
         self.floor(f"writers of {field}", len(cs), min_sites)
         self.confine(rule, f"writers of field {field}", cs, allowed)
 
+    def _guard_wrappers(self, names, success_variants=None, bool_pos=True, inner=0):
+        """In-crate functions W whose success result is cut by the success of their own call of one of `names`
+        (or whose result IS that call): W succeeded => the guard succeeded."""
+        if not hasattr(self, '_wrap_cache'):
+            self._wrap_cache = {}
+        key = (tuple(sorted(names)), tuple(success_variants or ()), bool_pos, inner)
+        if key in self._wrap_cache:
+            return self._wrap_cache[key]
+        import common
+        out = set()
+        for n in names:
+            for c in self.facts.callers_of(n):
+                w = self.facts.bodies.get(c)
+                if w is None or not w.focus or w.kind in ('closure', 'coroutine') or '::{' in w.fn:
+                    continue
+                edges = set()
+                try:
+                    for s_ in w.calls(n):
+                        edges |= prims.track_result(self.facts, w, s_, success_variants=success_variants, bool_pos=bool_pos, inner=inner).success
+                except Exception:
+                    continue
+                ret = w.rec.get('ret', '')
+                rd = prims.result_defs(w)
+                if rd and all(k == 'call' and (p_.get('r') or p_.get('f')) in names for bb, k, p_ in rd):
+                    out.add(w.fn)     # `fn w(..) -> R { guard(..) }`
+                    continue
+                if not edges:
+                    continue
+                if ret.startswith('core::result::Result'):
+                    succ = common.ok_return_bbs(w)
+                elif ret == 'bool':
+                    succ = prims.nonfalse_result_bbs(w)
+                elif ret.startswith('core::option::Option'):
+                    succ = common.ok_return_bbs(w, 'Some', 'core::option::Option')
+                else:
+                    continue
+                if succ and not (set(succ) & prims.reach(w, (0,), cut_edges=edges)):
+                    out.add(w.fn)
+        self._wrap_cache[key] = out
+        return out
+
     # -- P2 ---------------------------------------------------------------------
     def call_guard(self, body, names, success_variants=None, min_sites=1, bool_pos=True, pick=None, desc=None,
                    inner=0):
@@ -118,6 +172,19 @@ class RuleCtx:
         sites = body.calls(*names)
         if pick:
             sites = [s for s in sites if pick(s)]
+        if len(sites) < min_sites and not pick:
+            # a helper extracted around the guard keeps guarding: W(..) succeeded => guard(..) succeeded
+            ws = self._guard_wrappers(names, success_variants, bool_pos, inner)
+            wsites = [t for t in body.calls() if (t.d.get('r') or t.d.get('f')) in ws]
+            if wsites:
+                self.note(f"{body.fn}: guard {desc or names[0]} is reached through the wrapper(s) {sorted({(t.d.get('r') or t.d.get('f')) for t in wsites})}")
+                edges = set()
+                for s in wsites:
+                    tr = prims.track_result(self.facts, body, s)
+                    edges |= tr.success
+                if edges:
+                    self.sites += len(wsites)
+                    return edges
         if len(sites) < min_sites:
             raise GuardMissing(f"{body.fn}: guard call {desc or names[0]} not found ({len(sites)} < {min_sites})")
         edges = set()
